@@ -29,7 +29,7 @@ var genAttrNames = []string{"id", "class", "title", "lang", "href", "src", "cite
 	"style", "data-x", "onclick", "xlink:href", "crossorigin", "sandbox", "srcset", "action", "background", "poster", "datetime", "colspan", "x", "role", "aria-label", "media", "method", "http-equiv", "content", "loading", "srcdoc", "download", "hidden", "checked", "disabled", "open", "reversed", "controls", "async", "nowrap", "selected", "required"}
 
 var genStyleProps = []string{"color", "background-color", "width", "height", "text-align", "font-size", "margin", "border", "background", "background-image", "font-family",
-	"display", "float", "opacity", "z-index", "text-decoration", "list-style", "transform", "filter", "animation", "behavior", "-moz-binding", "zoom", "x-unknown"}
+	"display", "float", "opacity", "z-index", "text-decoration", "list-style", "transform", "filter", "animation", "behavior", "-moz-binding", "zoom", "x-unknown", "margin-inline-start", "padding-block", "color-start", "border-inline-end", "-webkit-color"}
 
 var genRewritten = map[string]bool{"href": true, "src": true, "cite": true, "rel": true, "target": true, "crossorigin": true, "sandbox": true}
 
@@ -82,6 +82,8 @@ func RandomOps(r *rand.Rand, o GenOpts) []Op {
 		base = o.Base[r.Intn(len(o.Base))]
 	} else if r.Intn(12) == 0 {
 		base = KUGC
+	} else if r.Intn(25) == 0 {
+		base = KZero
 	}
 	ops := []Op{{K: base}}
 	pool := elementPool(o)
